@@ -12,8 +12,8 @@ from __future__ import annotations
 ID = "C22"
 LEVEL = "exploration"
 TIERS = {
-    "quick": {"runs": 6000, "wall": 80, "chunk": 60, "shrink_s": 40, "run_cap_s": 60},
-    "thorough": {"runs": 1_000_000, "wall": 840, "chunk": 100, "shrink_s": 120, "run_cap_s": 60},
+    "quick": {"runs": 6000, "wall": 80, "chunk": 60, "shrink_s": 40, "run_cap_s": 120},
+    "thorough": {"runs": 1_000_000, "wall": 840, "chunk": 100, "shrink_s": 120, "run_cap_s": 120},
 }
 RULE = (
     "one run = one history of nested and overlapping allocate/deallocate scopes (state zero|any, restored "
